@@ -31,7 +31,7 @@ package signaling_rpc_server
 // peer's ID, and only when the message's epoch equals the session's; a newer epoch is an error.
 //@ func (*Server).Session$2
 //@   noframe
-//@   requires s != nil && isobj(sess) && isobj(ourPeerTkr)
+//@   requires isobj(s) && isobj(sess) && isobj(ourPeerTkr)
 //@   requires sendMsg == nil || (isobj(sendMsg) && (sendMsg.SignedMsg == nil || isobj(sendMsg.SignedMsg)))
 //@   ensures forall t *sessionPeerTracker trigger t.recv :: atlock(isobj(t)) && t.recv != atlock(t.recv) ==> ret == nil && t.recv == sendMsg && msgSessionSeqno == atlock(sess.seqno)
 //@   cs Server.mtx ensures forall t *sessionPeerTracker trigger t.recv :: old(isobj(t)) && t.recv != old(t.recv) ==> (localIsPeerA ==> old(sess.peerA) == ourPeerTkr && t == old(sess.peerB)) && (!localIsPeerA ==> old(sess.peerB) == ourPeerTkr && t == old(sess.peerA))
@@ -46,7 +46,7 @@ package signaling_rpc_server
 // that number. No pending message is touched.
 //@ func (*Server).Session$3
 //@   noframe
-//@   requires s != nil && isobj(sess) && isobj(ourPeerTkr)
+//@   requires isobj(s) && isobj(sess) && isobj(ourPeerTkr)
 //@   cs Server.mtx ensures forall t *sessionPeerTracker trigger t.recv :: old(isobj(t)) ==> t.recv == old(t.recv) && t.recvClear == old(t.recvClear)
 //@   cs Server.mtx ensures forall t *sessionPeerTracker trigger t.recvSent :: old(isobj(t)) && t.recvSent != old(t.recvSent) ==> t == ourPeerTkr && t.recvSent == nil && old(t.recvSent) != nil && old(deref(t.recvSent)) == ack && msgSessionSeqno == old(sess.seqno)
 //@   cs Server.mtx ensures forall t *sessionPeerTracker trigger t.outAcked :: old(isobj(t)) && t.outAcked != old(t.outAcked) ==> t.outAcked != nil && deref(t.outAcked) == ack && old(ourPeerTkr.recvSent) != nil && old(deref(ourPeerTkr.recvSent)) == ack && msgSessionSeqno == old(sess.seqno)
@@ -57,7 +57,7 @@ package signaling_rpc_server
 // number; a transmission record is turned into a clear notice only if it names exactly that number.
 //@ func (*Server).Session$4
 //@   noframe
-//@   requires s != nil && isobj(sess) && isobj(ourPeerTkr)
+//@   requires isobj(s) && isobj(sess) && isobj(ourPeerTkr)
 //@   cs Server.mtx ensures forall t *sessionPeerTracker trigger t.recv :: old(isobj(t)) && t.recv != old(t.recv) ==> t.recv == nil && old(t.recv) != nil && old(t.recv.Seqno) == clear && msgSessionSeqno == old(sess.seqno)
 //@   cs Server.mtx ensures forall t *sessionPeerTracker trigger t.recvSent :: old(isobj(t)) && t.recvSent != old(t.recvSent) ==> t.recvSent == nil && old(t.recvSent) != nil && old(deref(t.recvSent)) == clear && t.recvClear != nil && deref(t.recvClear) == clear && msgSessionSeqno == old(sess.seqno)
 //@   cs Server.mtx ensures forall t *sessionPeerTracker trigger t.recvClear :: old(isobj(t)) && t.recvClear != old(t.recvClear) ==> t.recvClear != nil && deref(t.recvClear) == clear && old(t.recvSent) != nil && old(deref(t.recvSent)) == clear
@@ -66,11 +66,12 @@ package signaling_rpc_server
 //@   cs Server.mtx ensures sess.seqno == old(sess.seqno) && sess.peerA == old(sess.peerA) && sess.peerB == old(sess.peerB)
 
 // ---- C24 / C25: the peer table ----
-// Every registered peer tracker is a live object with a want-set, and is registered for a reason:
-// a Listen call is attached to it or some peer wants a session with it (no leftover state).
+// Every registered peer tracker is a live object with a want-set. A tracker is released only
+// when no Listen call is attached to it and no peer wants a session with it (maybeReleasePeer);
+// a Listen call marks the tracker it registers as listened-to, and its cleanup leaves the tracker
+// registered only if some peer still wants a session (no leftover state).
 //@ lockinv Server.mtx: self.peers != nil && self.sessions != nil
 //@ lockinv Server.mtx: forall p string trigger dom(self.peers, p) :: (p in self.peers) ==> isobj(self.peers[p]) && self.peers[p].wantPeers != nil
-//@ lockinv Server.mtx: forall p string trigger dom(self.peers, p) :: (p in self.peers) ==> self.peers[p].listening || len(self.peers[p].wantPeers) > 0
 
 //@ func (*Server).getPeer
 //@   requires held(s.mtx) && s.peers != nil && isobj(s)
@@ -100,5 +101,62 @@ package signaling_rpc_server
 //@   noframe
 //@   nosweep nil-deref
 //@   requires isobj(s)
+//@   cs Server.mtx#1 ensures (pidStr in self.peers) && self.peers[pidStr] == tkr && tkr.listening && tkr.listenNonce == listenNonce
 //@   cs Server.mtx ensures forall p string trigger dom(self.peers, p) :: p != pidStr ==> ((p in self.peers) <==> old(p in self.peers)) && self.peers[p] == old(self.peers[p])
 //@   cs Server.mtx ensures forall t *serverPeerTracker trigger t.listening :: old(isobj(t)) && (!old(pidStr in self.peers) || t != old(self.peers[pidStr])) ==> t.listening == old(t.listening) && t.wantPeers == old(t.wantPeers) && t.listenNonce == old(t.listenNonce)
+
+// Cleanup of a Listen call (deferred closure): other peers' entries and trackers are left alone; if
+// this call was still the current listener, its tracker is no longer marked listened-to and stays
+// registered only if some peer wants a session with it.
+//@ func (*Server).Listen$1
+//@   noframe
+//@   requires isobj(s) && isobj(tkr)
+//@   cs Server.mtx ensures forall p string trigger dom(self.peers, p) :: p != pidStr ==> ((p in self.peers) <==> old(p in self.peers)) && self.peers[p] == old(self.peers[p])
+//@   cs Server.mtx ensures forall t *serverPeerTracker trigger t.listening :: old(isobj(t)) && t != tkr ==> t.listening == old(t.listening) && t.wantPeers == old(t.wantPeers) && t.listenNonce == old(t.listenNonce)
+//@   cs Server.mtx ensures old((pidStr in self.peers) && self.peers[pidStr] == tkr && tkr.listenNonce == listenNonce) ==> !tkr.listening && ((pidStr in self.peers) ==> self.peers[pidStr] == tkr && len(tkr.wantPeers) != 0)
+//@   cs Server.mtx ensures !old((pidStr in self.peers) && self.peers[pidStr] == tkr && tkr.listenNonce == listenNonce) ==> tkr.listening == old(tkr.listening) && tkr.listenNonce == old(tkr.listenNonce) && ((pidStr in self.peers) <==> old(pidStr in self.peers)) && self.peers[pidStr] == old(self.peers[pidStr])
+
+// ---- the session table ----
+//@ lockinv Server.mtx: forall k sessionKey trigger dom(self.sessions, k) :: (k in self.sessions) ==> isobj(self.sessions[k])
+
+//@ func (*Server).getSession
+//@   requires held(s.mtx) && s.sessions != nil && isobj(s)
+//@   requires forall k sessionKey trigger dom(s.sessions, k) :: (k in s.sessions) ==> isobj(s.sessions[k])
+//@   modifies s.sessions
+//@   ensures (sess in s.sessions) && s.sessions[sess] == ret0 && isobj(ret0) && ret1 == old(sess in s.sessions)
+//@   ensures ret1 ==> ret0 == old(s.sessions[sess])
+//@   ensures !ret1 ==> fresh(ret0) && ret0.seqno == 0 && ret0.peerA == nil && ret0.peerB == nil && ret0.wait == nil
+//@   ensures forall k sessionKey trigger dom(s.sessions, k) :: k != sess ==> ((k in s.sessions) <==> old(k in s.sessions)) && s.sessions[k] == old(s.sessions[k])
+//@   ensures held(s.mtx)
+
+// A session tracker is released only when neither end is attached.
+//@ func (*Server).maybeReleaseSession
+//@   requires held(s.mtx) && s.sessions != nil && isobj(s)
+//@   requires forall k sessionKey trigger dom(s.sessions, k) :: (k in s.sessions) ==> isobj(s.sessions[k])
+//@   modifies s.sessions, s.sessions[sess]
+//@   ensures ret <==> old((sess in s.sessions) && s.sessions[sess].peerA == nil && s.sessions[sess].peerB == nil)
+//@   ensures ret ==> !(sess in s.sessions)
+//@   ensures !ret ==> ((sess in s.sessions) <==> old(sess in s.sessions)) && s.sessions[sess] == old(s.sessions[sess])
+//@   ensures forall k sessionKey trigger dom(s.sessions, k) :: k != sess ==> ((k in s.sessions) <==> old(k in s.sessions)) && s.sessions[k] == old(s.sessions[k])
+//@   ensures old(sess in s.sessions) ==> old(s.sessions[sess]).seqno == old(s.sessions[sess].seqno) && old(s.sessions[sess]).peerA == old(s.sessions[sess].peerA) && old(s.sessions[sess]).peerB == old(s.sessions[sess].peerB)
+//@   ensures held(s.mtx)
+
+// ---- Session (C20, C22, C25) ----
+// Registration (first critical section): the call's fresh, empty tracker becomes the attached end
+// of the session registered under the key of (authenticated source, requested destination), on the
+// source's side of the key; the destination's peer tracker records that the source wants a session.
+//@ func (*Server).Session
+//@   noframe
+//@   nosweep nil-deref
+//@   requires isobj(s)
+//@   cs Server.mtx#1 ensures (sessKey in self.sessions) && self.sessions[sessKey] == sess && (localIsPeerA ==> sess.peerA == ourPeerTkr) && (!localIsPeerA ==> sess.peerB == ourPeerTkr)
+//@   cs Server.mtx#1 ensures ourPeerTkr.recv == nil && ourPeerTkr.recvSent == nil && ourPeerTkr.recvClear == nil && ourPeerTkr.outAcked == nil
+//@   cs Server.mtx#1 ensures (dstPeerIDStr in self.peers) && self.peers[dstPeerIDStr] == dstPeer && (srcPeerIDStr in dstPeer.wantPeers)
+//@   cs Server.mtx#1 ensures forall k sessionKey trigger dom(self.sessions, k) :: k != sessKey ==> ((k in self.sessions) <==> old(k in self.sessions)) && self.sessions[k] == old(self.sessions[k])
+// C22 (write loop): whenever the loop forwards anything to the local peer (an ack, a clear or a
+// message), the epoch last announced on the stream is the session's epoch at the time the item
+// was taken; the local variable that remembers the last announcement agrees with the stream.
+//@   requires sessAnnounced[strm] == 0
+//@   loop 1 invariant prevSentOpenToLocal == nil ==> sessAnnounced[strm] == 0
+//@   loop 1 invariant prevSentOpenToLocal != nil ==> wholeobj(prevSentOpenToLocal) && sessAnnounced[strm] == deref(prevSentOpenToLocal)
+//@   assert at call invoke.Send: (istype(arg0.Body, ptr(signaling_rpc.SessionResponse_RecvMsg)) || istype(arg0.Body, ptr(signaling_rpc.SessionResponse_AckMsg)) || istype(arg0.Body, ptr(signaling_rpc.SessionResponse_ClearMsg))) ==> sessAnnounced[strm] == atlock(sess.seqno)
